@@ -275,10 +275,14 @@ def rel(f):
 
 
 class Facts:
-    def __init__(self, path):
+    def __init__(self, path, fold_async=True, raw=None):
         import hashlib
-        with open(path, 'rb') as fh:
-            raw = fh.read()
+        self._fold_async = fold_async
+        self._nofold = None
+        if raw is None:
+            with open(path, 'rb') as fh:
+                raw = fh.read()
+        self._raw = raw
         j = json.loads(raw)
         # content digest without the per-run nonce
         self.digest = hashlib.sha256(raw.replace(str(j.get('nonce', '')).encode(), b'')).hexdigest()
@@ -287,7 +291,8 @@ class Facts:
         from . import inline as _inl
         _kn = _inl.known_functions()
         self.folded = _inl.fold_unknown_helpers(j, _kn)
-        self.folded += _inl.fold_unknown_async(j, _kn)
+        if fold_async:
+            self.folded += _inl.fold_unknown_async(j, _kn)
         self.nonce = j['nonce']
         self.crate = j['crate']
         self.types = j['types']
@@ -296,7 +301,10 @@ class Facts:
         self.bodies = {}
         self.body_list = []
         gone = set()
+        kept = _inl.still_called(j, {h for (_c, h) in self.folded})
         for (_c, h) in self.folded:
+            if h in kept:
+                continue
             gone.add(h)
             gone.add(h + '::{closure#0}')
         self.folded_helpers = gone
@@ -315,6 +323,18 @@ class Facts:
             else:
                 self.impls.append(im)
         self._coroutines_of = {}
+
+    def without_async_folding(self):
+        """the same facts with unknown *async* helpers left as calls (engine G follows awaits with its own modular
+        assume/guarantee analysis and needs the future/await structure intact)"""
+        if not self._fold_async:
+            return self
+        if not any(h + '::{closure#0}' in self.folded_helpers and (h + '::{closure#0}') in self.bodies and self.bodies[h + '::{closure#0}'].is_coroutine
+                   for (_c, h) in self.folded):
+            return self
+        if self._nofold is None:
+            self._nofold = Facts(self.path, fold_async=False, raw=self._raw)
+        return self._nofold
 
     # ---- types
     def T(self, i):
